@@ -475,6 +475,16 @@ def cond(cx, n, env):
         return "(" + (" && " if isinstance(n.op, ast.And) else " || ").join(parts) + ")"
     if isinstance(n, ast.UnaryOp) and isinstance(n.op, ast.Not):
         return f"(!{cond(cx, n.operand, env)})"
+    if isinstance(n, ast.Compare) and len(n.ops) == 1 and isinstance(n.ops[0], (ast.In, ast.NotIn)) \
+            and isinstance(n.comparators[0], (ast.Tuple, ast.List, ast.Set)) and all(isinstance(e, ast.Constant) and isinstance(e.value, str) for e in n.comparators[0].elts):
+        v = expr(cx, n.left, env)
+        if v.ty != "mode": cx.err("membership test on a value that is not a mode parameter", n)
+        r = "(" + " || ".join(f'({v.lean} == "{e.value}")' for e in sorted(n.comparators[0].elts, key=lambda e: e.value)) + ")"
+        return r if isinstance(n.ops[0], ast.In) else f"(!{r})"
+    if isinstance(n, ast.Call) and ast.unparse(n.func).endswith(".has_attribute") and len(n.args) == 1 and isinstance(n.args[0], ast.Constant):
+        key = "has:" + ast.unparse(n.func).split(".")[1] + ":" + str(n.args[0].value)
+        if key not in env: cx.err("test of a cached attribute that this function is not expected to read", n)
+        return env[key].lean
     if isinstance(n, ast.Compare) and len(n.ops) == 1:
         op = n.ops[0]
         a, b = n.left, n.comparators[0]
@@ -496,8 +506,6 @@ def cond(cx, n, env):
             l, r = as_ty(cx, va, "rat", n).lean, as_ty(cx, vb, "rat", n).lean
         if isinstance(op, (ast.Lt, ast.LtE)): return f"decide ({l} {ops[type(op)]} {r})"
         return f"({l} {ops[type(op)]} {r})"
-    if isinstance(n, ast.Compare) and len(n.ops) == 1 and isinstance(n.ops[0], ast.In):
-        pass
     v = expr(cx, n, env)
     if v.ty == "bool": return v.lean
     cx.err("unsupported condition", n)
@@ -734,6 +742,8 @@ class Fn:
             if n not in out: out.append(n)
         for s in stmts:
             for n in ast.walk(s):
+                if isinstance(n, ast.Call) and isinstance(n.func, ast.Attribute) and n.func.attr == "clear" and isinstance(n.func.value, ast.Name):
+                    add(n.func.value.id)
                 if isinstance(n, (ast.Assign, ast.AugAssign)):
                     tg = n.targets if isinstance(n, ast.Assign) else [n.target]
                     for t in tg:
@@ -749,13 +759,13 @@ class Fn:
         if len(S) == 1: return env[S[0]].lean
         return "(" + ", ".join(env[n].lean for n in S) + ")"
 
-    def unpack(self, S, src):
+    def unpack(self, S, src, env):
         """Lean let-bindings restoring the state variables from the tuple term `src`"""
         if len(S) == 1: return []
         out = []
         for i, n in enumerate(S):
             proj = src + "".join(".2" for _ in range(i)) + (".1" if i < len(S) - 1 else "")
-            out.append(f"let {self.lname(n)} := {proj}")
+            out.append(f"let {env[n].lean} := {proj}")
         return out
 
     def block(self, stmts, env, S):
@@ -770,10 +780,27 @@ class Fn:
                 return self.wrap(lets, f"if {c} then {self.pack(S, env)} else {rest}")
             if isinstance(st, ast.If) and len(strip(st.body)) == 1 and isinstance(strip(st.body)[0], ast.Raise) and not st.orelse:
                 self.requires.append("inside the loop: not (" + ast.unparse(st.test) + ")"); continue
+            if isinstance(st, ast.Expr) and isinstance(st.value, ast.Call) and isinstance(st.value.func, ast.Attribute) and st.value.func.attr == "clear" \
+                    and not st.value.args and isinstance(st.value.func.value, ast.Name) and st.value.func.value.id in env \
+                    and env[st.value.func.value.id].ty.startswith("attr:"):
+                a = env[st.value.func.value.id]
+                lets.append(f"let {a.lean} : Attr ({ETY[a.ty[5:]]}) := fun _ => {EZERO[a.ty[5:]]}"); continue
+            cs = cached_source(cx, st)
+            if cs is not None:
+                var, cont, key, fb = cs
+                want = self.cfg.get("sources", {}).get(key)
+                if want is None or (cont, key, fb) != want[:3]: cx.err(f"unexpected cached attribute source {cont}['{key}'] / {fb}", st)
+                env[var] = V(want[3], want[4]); self.sources.append((self.fn.name, var, cont, key, fb)); continue
+            if isinstance(st, ast.Assign) and len(st.targets) == 1 and isinstance(st.targets[0], ast.Name) \
+                    and ast.unparse(st.value).replace(" ", "").startswith("np.zeros(len(mesh."):
+                ln = self.lname(st.targets[0].id)
+                lets.append(f"let {ln} : Attr (Rat) := fun _ => 0")
+                env[st.targets[0].id] = V(ln, "attr:rat"); continue
             if isinstance(st, ast.If):
                 c = cond(cx, st.test, env)
                 mod = [n for n in self.assigned([st]) if n in env]
-                extra = [n for n in mod if n not in S and n in env and env[n].lean in self.names.values()]
+                st_all = self.state_of([st], env)
+                extra = [n for n in st_all if n not in S]
                 S2 = [n for n in S if n in mod] + extra
                 if not S2: cx.err("conditional without effect on the state", st)
                 a = self.block(st.body, dict(env), S2)
@@ -782,7 +809,7 @@ class Fn:
                     lets.append(f"let {env[S2[0]].lean} := if {c} then {a} else {b}")
                 else:
                     lets.append(f"let s := if {c} then {a} else {b}")
-                    lets += self.unpack(S2, "s")
+                    lets += self.unpack(S2, "s", env)
                 continue
             if isinstance(st, ast.For):
                 lets += self.loop(st, env)
@@ -853,7 +880,8 @@ class Fn:
             if isinstance(op, ast.Add) and v.ty == "halfref":
                 return f"let {a.lean} := upd {a.lean} {idx} (fun l => l ++ [{v.lean}])"
             cx.err("unsupported update of a cotangent weight (expected `+= cot[c]/2`)", node)
-        v = as_ty(cx, expr(cx, value, env), ety, node)
+        v0 = expr(cx, value, env)
+        v = as_ty(cx, v0, ety, node)
         if v.norm and not (cx.cfg.get("unit_outputs") and op is None and v.norm == (v.lean,)):
             cx.err(f"a rescaled value is stored ({list(v.norm)})", node)
         if op is None:
@@ -873,7 +901,7 @@ class Fn:
         e2 = dict(env)
         pre = []
         sv = "s" if len(S) > 1 else env[S[0]].lean
-        head_lets = self.unpack(S, "s")
+        head_lets = self.unpack(S, "s", env)
 
         def bindvar(t, v):
             self.bind(t, v, e2, pre, st)
@@ -901,6 +929,9 @@ class Fn:
         else:
             if it in LISTS: lst, ety = LISTS[it]
             elif it == "mesh.boundary_vertices": lst, ety = "(boundaryVertices faces vs.length)", "nat"
+            elif isinstance(st.iter, ast.Call) and ast.unparse(st.iter.func) == "mesh.connectivity.edge_to_faces" and len(st.iter.args) == 2 and not st.iter.keywords:
+                a_, b_ = nat_expr(cx, st.iter.args[0], env), nat_expr(cx, st.iter.args[1], env)
+                lst, ety = f"[(directFace faces {a_} {b_}).map (·.1), (directFace faces {b_} {a_}).map (·.1)]", "optnat"
             else:
                 v = expr(cx, st.iter, env)
                 if v.ty not in ("face", "natlist"): cx.err(f"loop over a {v.ty}", st)
@@ -914,7 +945,7 @@ class Fn:
             lam = f"fun {sv} {ev} => " + self.wrap(head_lets + pre, body)
             res = f"forEach {lst} {self.pack(S, env)} ({lam})"
         if len(S) == 1: return [f"let {env[S[0]].lean} := {res}"]
-        return [f"let s := {res}"] + self.unpack(S, "s")
+        return [f"let s := {res}"] + self.unpack(S, "s", env)
 
 
 def expr_ref(cx, n, env):
@@ -932,12 +963,11 @@ def attr_function(fn, sigs, cfg):
     F = Fn(fn, sigs, cfg)
     cx = F.cx
     env = {}
-    pnames = [a.arg for a in fn.args.args]
-    for py, ln, lty, vty in cfg["params"]:
-        if py: env[py] = V(ln, vty)
-    # a renamed optional-count parameter: bound by position
-    for py, ln, lty, vty in cfg["params"]:
-        if py == "n" and "n" not in pnames and len(pnames) == 2: env[pnames[1]] = V(ln, vty)
+    # the configured value parameters are bound BY POSITION to the function's parameters after `mesh` (names are free)
+    actual = [a.arg for a in fn.args.args[1:] if a.arg not in ("name", "persistent", "dense")]
+    conf = [(py, ln, lty, vty) for py, ln, lty, vty in cfg["params"] if py]
+    if len(actual) != len(conf): cx.err(f"parameters {actual} where {[c[0] for c in conf]} are expected")
+    for a_, (py, ln, lty, vty) in zip(actual, conf): env[a_] = V(ln, vty)
     body = body_of(fn)
     lets = []
     ret = None
@@ -995,8 +1025,8 @@ def attr_function(fn, sigs, cfg):
                 else:
                     lets.append(f"let {ln} : {LTY[ty]} := {ZERO[ty]}")
                 env[n] = V(ln, ty); continue
-        S = [n for n in F.assigned([st]) if n in env and env[n].lean in F.names.values()]
-        if isinstance(st, (ast.For, ast.If)) or (isinstance(st, ast.AugAssign)) or isinstance(st, ast.Assign):
+        S = F.state_of([st], env)
+        if isinstance(st, (ast.For, ast.If, ast.Expr)) or (isinstance(st, ast.AugAssign)) or isinstance(st, ast.Assign):
             term = F.block([st], env, S if S else [])
             # the block returns `(lets; state)`: splice its lets
             if not term.startswith("("): cx.err("statement without effect", st)
@@ -1052,14 +1082,30 @@ ATTRS = [
     dict(file=AF + "attr_faces.py", name="face_circumcenter", params=[P_VS, P_F], elem="vec"),
     dict(file=AF + "glob.py", name="euler_characteristic", params=[P_VS, P_F, P_E], ret="scalar:int", int_lens=True),
     dict(file=AF + "glob.py", name="barycenter", params=[P_VS], ret="scalar:vec"),
-    dict(file=AF + "glob.py", name="total_area", params=[P_F, ("farea", "farea", "Attr Rat", "attr:rat")], ret="scalar:rat",
+    dict(file=AF + "glob.py", name="total_area", params=[P_F, (None, "farea", "Attr Rat", "attr:rat")], ret="scalar:rat",
          sources={"area": ("faces", "area", "face_area", "farea", "attr:rat")}),
-    dict(file=AF + "glob.py", name="mean_face_area", params=[P_F, ("farea", "farea", "Attr Rat", "attr:rat"), ("n", "n", "Option Nat", "optnat")],
+    dict(file=AF + "glob.py", name="mean_face_area", params=[P_F, (None, "farea", "Attr Rat", "attr:rat"), ("n", "n", "Option Nat", "optnat")],
          ret="scalar:rat", sources={"area": ("faces", "area", "face_area", "farea", "attr:rat")}, locals=[("rat", ("0",))]),
-    dict(file=AF + "glob.py", name="mean_cell_volume", params=[P_C, ("cvol", "cvol", "Attr Rat", "attr:rat"), ("n", "n", "Option Nat", "optnat")],
+    dict(file=AF + "glob.py", name="mean_cell_volume", params=[P_C, (None, "cvol", "Attr Rat", "attr:rat"), ("n", "n", "Option Nat", "optnat")],
          ret="scalar:rat", sources={"volume": ("cells", "volume", "cell_volume", "cvol", "attr:rat")}, locals=[("rat", ("0",))]),
     dict(file=AF + "glob.py", name="mean_edge_length", params=[P_VS, P_E, ("n", "n", "Option Nat", "optnat")],
          ret="scalar:root", locals=[("root", ("0",))]),
+]
+IF = AF + "interpolate.py"
+_SRC = {"area": ("faces", "area", "face_area", "area", "attr:rat"), "angles": ("face_corners", "angles", "corner_angles", "angles", "attr:rat")}
+P_W = ("weight", "weight", "String", "mode")
+P_AREA = (None, "area", "Attr Rat", "x")
+P_ANG = (None, "angles", "Attr Rat", "x")
+ATTRS += [
+    dict(file=IF, name="interpolate_vertices_to_faces", params=[P_F, ("vattr", "vattr", "Attr Rat", "attr:rat"), ("fattr", "fattr", "Attr Rat", "attr:rat")]),
+    dict(file=IF, name="interpolate_faces_to_vertices", params=[P_VS, P_F, P_AREA, P_ANG, ("fattr", "fattr", "Attr Rat", "attr:rat"), ("vattr", "vattr", "Attr Rat", "attr:rat"), P_W],
+         sources=_SRC),
+    dict(file=IF, name="scatter_vertices_to_corners", params=[P_F, ("vattr", "vattr", "Attr Rat", "attr:rat"), ("cattr", "cattr", "Attr Rat", "attr:rat")]),
+    dict(file=IF, name="scatter_faces_to_corners", params=[P_F, ("fattr", "fattr", "Attr Rat", "attr:rat"), ("cattr", "cattr", "Attr Rat", "attr:rat")]),
+    dict(file=IF, name="average_corners_to_vertices", params=[P_VS, P_F, P_ANG, ("cattr", "cattr", "Attr Rat", "attr:rat"), ("vattr", "vattr", "Attr Rat", "attr:rat"), P_W],
+         sources=_SRC),
+    dict(file=IF, name="average_corners_to_faces", params=[P_F, P_ANG, ("cattr", "cattr", "Attr Rat", "attr:rat"), ("fattr", "fattr", "Attr Rat", "attr:rat"), P_W],
+         sources=_SRC),
 ]
 MODELLED_PRIMS = {"circumcenter": ("circumcenter", ["vec"] * 3, "vec")}
 
@@ -1147,10 +1193,20 @@ def mass_function(fn, cfg):
             if acc is None: cx.err("assembly loop before the accumulator is created", st)
             lets += F.loop(st, env); k += 1
             break
+        if cfg.get("diag") and isinstance(st, ast.Assign) and isinstance(st.targets[0], ast.Name):
+            import re as _re
+            m_ = _re.fullmatch(r"np\.atleast_1d\((\w+)\.as_array\(len\(mesh\.%s\)\)\)" % cfg["size"], ast.unparse(st.value).replace(" ", ""))
+            if m_ and m_.group(1) in env and env[m_.group(1)].ty == "attr:rat":
+                acc = st.targets[0].id; env[acc] = env[m_.group(1)]; k += 1
+                break
         cx.err("unsupported statement before the assembly loop", st)
     if acc is None: cx.err("no accumulator np.zeros(len(mesh.<container>))")
     steps = mass_tail(cx, body[k:], acc)
     params = " ".join(f"({ln} : {lty})" for _, ln, lty, _ in cfg["params"])
+    if cfg.get("diag"):
+        text = (f"/-- `{cfg['file']}: {fn.name}`: the diagonal `<attr>.as_array(len(mesh.{cfg['size']}))` before the elementwise tail {steps} -/\n"
+                f"def {fn.name} {params} : List Rat :=\n  tab {env[acc].lean} {CONTAINERS[cfg['size']]}\n")
+        return text, steps
     text = (f"/-- `{cfg['file']}: {fn.name}`: the lumped masses before the elementwise tail {steps} -/\n"
             f"def {fn.name} {params} : Attr (Rat) :=\n  " + "\n  ".join(lets + [env[acc].lean]) + "\n")
     return text, steps
@@ -1161,6 +1217,12 @@ MASS = [
          params=[P_F, ("area", "area", "Attr Rat", "attr:rat")], sources={"area": ("faces", "area", "face_area", "area", "attr:rat")}),
     dict(file=OF + "mass.py", name="volume_weight_matrix", size="vertices",
          params=[P_C, ("volume", "volume", "Attr Rat", "attr:rat")], sources={"volume": ("cells", "volume", "cell_volume", "volume", "attr:rat")}),
+    dict(file=OF + "mass.py", name="area_weight_matrix_faces", size="faces", diag=True,
+         params=[P_F, ("area", "area", "Attr Rat", "attr:rat")], sources={"area": ("faces", "area", "face_area", "area", "attr:rat")}),
+    dict(file=OF + "mass.py", name="volume_weight_matrix_cells", size="cells", diag=True,
+         params=[P_C, ("volume", "volume", "Attr Rat", "attr:rat")], sources={"volume": ("cells", "volume", "cell_volume", "volume", "attr:rat")}),
+    dict(file=OF + "mass.py", name="area_weight_matrix_edges", size="edges",
+         params=[P_F, P_E, ("area", "area", "Attr Rat", "attr:rat")], sources={"area": ("faces", "area", "face_area", "area", "attr:rat")}),
 ]
 
 
